@@ -578,7 +578,40 @@ class Interp:
             if t["k"] == "adt":
                 return VStruct(t["path"], ())
             return VOpaque("zst", t["s"])
+        mem = o.get("mem")
+        if isinstance(mem, str) and t["k"] == "adt":
+            body = mem[mem.find("{") + 1:mem.rfind("}")] if "{" in mem else ""
+            if body and set(body) <= {"0"}:
+                z = self.zero_value(t, 0)
+                if z is not None:
+                    return z
         return VOpaque("const", o.get("ptr") or o.get("mem") or o.get("opaque") or o.get("uneval"))
+
+    def zero_value(self, t, depth):
+        """The value of a constant whose bytes are all zero, for plain data: integers 0, bools false, Option::None (discriminant 0, or the niche of a non-zero
+        field - `Some` of a non-zero payload has no all-zero representation), a struct field by field."""
+        if depth > 3:
+            return None
+        if t["k"] == "int":
+            return VInt(Lin(0), t["bits"], t["signed"])
+        if t["k"] == "bool":
+            return VBool(False)
+        if t["k"] != "adt":
+            return None
+        if t["path"] == OPTION:
+            return none()
+        adt = self.prog.adts.get(t["path"])
+        if adt is None or adt.get("generics"):
+            return None
+        if adt["kind"] != "struct":
+            return None
+        fs = []
+        for fd in adt["variants"][0]["fields"]:
+            z = self.zero_value(self.prog.ty(fd["ty"]), depth + 1)
+            if z is None:
+                return None
+            fs.append((fd["name"], z))
+        return VStruct(t["path"], tuple(fs))
 
     def eval_promoted(self, st, fr, idx):
         key = (fr.fnkey, idx)
